@@ -67,7 +67,8 @@ def regen_constants():
     d = tempfile.mkdtemp(prefix="verif-const.")
     try:
         exe = os.path.join(d, "gc")
-        rc, out = sh(["gcc", "-w", "-I" + os.path.join(REPO, "include"), "-I" + os.path.dirname(B.config_h_path()),
+        shutil.copy(B.config_h_path(), os.path.join(d, "config.h"))
+        rc, out = sh(["gcc", "-w", "-I" + os.path.join(REPO, "include"), "-I" + d,
                       os.path.join(VERIF, "vlib", "gen_constants.c"), "-o", exe])
         if rc != 0:
             return False, "gen_constants.c does not compile against the current headers:\n" + out[-2000:]
